@@ -279,12 +279,22 @@ def sim_pairs(tier):
                         wa = dag("chain2", [k1 * f * cpu, k2 * f * cpu],
                                  [f * bw], data=data)
                         obs = [mkobs("a", s * f, d * f, r, 1, 1, "wa")]
+                        mi = 2
+                        if (k1, k2) == (1, 1) and datak is None:
+                            # back to back, one ingest machine: b is due in
+                            # the step in which a hands its machine back and
+                            # starts one STEP late in every unit -- its
+                            # volume and duration must not suffer
+                            obs.append(mkobs("b", (s + d) * f, 2 * f, r, 1,
+                                             1, "wa"))
+                            mi = 1
                         base = dict(machines=machines, obs=obs,
                                     hot=(100 * f, 10), cold=(100 * f, 10),
-                                    arrays=2, max_ingest=2)
+                                    arrays=2, max_ingest=mi)
                         algs = [{"kind": "queue"},
                                 {"kind": "batch", "p": 1, "min": 1}]
-                        asg = {"a": {"0": 0, "1": M - 1}}
+                        asg = {o["name"]: {"0": 0, "1": M - 1}
+                               for o in obs}
                         algs.append({"kind": "dynamic", "assign": asg})
                         for alg in algs:
                             yield {"engine": "E1-pair", "unit": unit,
@@ -311,6 +321,8 @@ def _sim_observe(base, wa, alg, unit):
         elif c["kind"] == "finish_obs":
             out["ingest"][c["obs"]] = (c["t"] - t0.get(c["obs"], 0)) * f
         elif c["kind"] == "deposit" and not c["raised"]:
+            # rate is per step: rate [1/step] x f [s/step] ... the parsed
+            # rate is already multiplied by f, so summing it gives volume
             out["volume"]["all"] = out["volume"].get("all", 0) + c["rate"]
     return out
 
